@@ -781,7 +781,7 @@ var boundsText = map[string][2]string{
 	"C12": {"11 segment layouts over S,f,N,D,E,M x decode flags x both decoders; UpdateSidx for all (add, nonZeroEPT)", "17 layouts"},
 	"C13": {"write/read sequences of <= 4 symbolic-width values, Exp-Golomb at all alignments, all byte strings <= 6 through the EBSP writer/reader, one inductive writer step", "byte strings <= 8"},
 	"C14": {"scanner: two units, start codes 3/4, lengths 1..9 x {1,2,5,9}; conversions and walkers: 6 layouts of <= 3 units (AVC) and 6 (HEVC); symbolic bytes under the no-emulation assumption", "same instance set (already exhaustive for the shapes), longer time caps"},
-	"C15": {"AVC: 22 SPS structures x code-length classes {0,1,3,8}; 9 SPS structures x {more,idr} x classes {0,1,1001,3,1008} for PPS + I slice; 5 config instances; 7 extended SPS shapes (scaling matrix, full VUI, HRD) and 4 PPS scaling-matrix shapes x classes {0,1,1001,3}. HEVC: 52 SPS (variant,shape) pairs x classes {0,1,3,8}; 59 (SPS,PPS,slice) structures x classes {0,1,1001,3,1008}; 5 hvcC/codec string instances. Info bits of every ue/se element and all fixed-width fields symbolic", "all 64 AVC SPS structures x classes 0..8 + sweeps; 91 HEVC SPS pairs x 11 classes; 179 HEVC slice structures x 13 classes"},
+	"C15": {"AVC: 22 SPS structures x code-length classes {0,1,3,8}; 9 SPS structures x {more,idr} x classes {0,1,1001,3,1008} for PPS + I slice; 5 config instances; 7 extended SPS shapes (scaling matrix, full VUI, HRD) and 4 PPS scaling-matrix shapes x classes {0,1,1001,3}; P/B/SP/SI slice headers: 6 slice types x 17 shapes x half of the classes {0,1,1001,3}. HEVC: 52 SPS (variant,shape) pairs x classes {0,1,3,8}; 59 (SPS,PPS,slice) structures x classes {0,1,1001,3,1008}; 5 hvcC/codec string instances. Info bits of every ue/se element and all fixed-width fields symbolic", "all 64 AVC SPS structures x classes 0..8 + sweeps; 91 HEVC SPS pairs x 11 classes; 179 HEVC slice structures x 13 classes"},
 	"C16": {"every entry point x every input length 0..10 (walkers) / 0..6 (bit-level parsers) / 0..8 (SEI) / hvcC 0..28, fully symbolic bytes; budgets 50000+4000*N steps, 64 KiB+64*N bytes", "lengths 0..14 / 0..10 / 0..12 / hvcC 0..34"},
 	"C17": {"message lists with payloads 0..3 (+0..1) symbolic bytes, sizes 254..511, time code 0..2 clocks, AVC pic timing 7 shapes, fixed messages, 5 pass-through kinds", "payloads 0..5 (+0..3), 0..3 clocks, all pic timing shapes"},
 	"C18": {"ASC for object types 2,5,29 (symbolic frequencies / channel configuration), ADTS with 0..4 junk bytes", "0..8 junk bytes"},
